@@ -177,6 +177,7 @@ fn run_once(plan: &Plan, entropy: u64, rep: &mut RunReport, prefix: &str) -> Vec
             root,
             os: SimControl(Arc::new(Mutex::new(OsState {
                 pid_lookup_faults: plan.pid_lookup_faults,
+                rpc_pid_offset: if plan.pid_namespace { 70_000 } else { 0 },
                 respawn_on_death: plan.respawn,
                 ..OsState::new()
             }))),
